@@ -309,7 +309,7 @@ def gen_l1(seed, idbase=0, nops=3000, nkeys=300, nb=("BucketsSize", 64), kt="byt
     return s
 
 
-def gen_reloc(seed, idbase=0, nops=150, width=16384, nkeys=5, name="reloc"):
+def gen_reloc(seed, idbase=0, nops=150, width=16384, nkeys=5, name="reloc", kt="bytes"):
     """C08: colliding keys whose records exactly fill their slots, free slots below and file ends
     above an offset-width boundary, so that overwrites move value records, key records and the
     predecessors' key records (relink cascades); decoded state after every update."""
@@ -326,7 +326,7 @@ def gen_reloc(seed, idbase=0, nops=150, width=16384, nkeys=5, name="reloc"):
     vlens = [3, 14, 15, 40, 100, 300, 1100, 2000]
     vids = [s.val(x) for x in vlens]
     s.op("open_db", db=0, dir="d")
-    s.op("map", h=1, db=0, name="m", kt="bytes", params={"buckets": ["BucketsSize", n]})
+    s.op("map", h=1, db=0, name="m", kt=kt, params={"buckets": ["BucketsSize", n]})
     dec = dict(dir="d", name="m", flush_h=1, native=True)
     # low region: the colliding records and a few slots freed again
     for k in keys:
@@ -456,11 +456,21 @@ def gen_reopen(seed, idbase=0, nops=300, nkeys=40, nb=("BucketsSize", 64), kt="b
             s.op("put", h=1, k=k, v=rng.choice(vids))
         elif r < 0.75:
             s.op("del", h=1, k=k)
-        elif r < 0.9:
+        elif r < 0.88:
             s.op("get", h=1, k=k)
+        elif r < 0.94:
+            s.op(rng.choice(["flush", "sync_all", "sync_data", "db_sync_all", "db_sync_data"]), **({"h": 1} if True else {}))
+            if s.ops[-1]["op"].startswith("db_"):
+                del s.ops[-1]["h"]
+                s.ops[-1]["db"] = 0
         else:
             s.op("len", h=1)
         if i in close_at:
+            if rng.random() < 0.4:
+                # count-changing updates, a sync, and then nothing more before the close
+                s.op("put", h=1, k=rng.choice(keys), v=rng.choice(vids))
+                s.op("del", h=1, k=rng.choice(keys))
+                s.op(rng.choice(["sync_all", "sync_data", "flush"]), h=1)
             # an update right before the close half of the time
             if rng.random() < 0.5:
                 s.op(rng.choice(["put", "del"]), h=1, k=rng.choice(keys), **({} if False else {}))
@@ -554,7 +564,7 @@ def gen_sync(seed, idbase=0, nops=160, nmaps=2, kill=False, name="sync"):
     return s
 
 
-def gen_fault(seed, idbase=0, shape="val", threshold=0, syncop="flush", name="fault"):
+def gen_fault(seed, idbase=0, shape="val", threshold=0, syncop="flush", name="fault", second=None):
     """C16: the OS refuses writes beyond `threshold` bytes (RLIMIT_FSIZE) during one flush/sync; full
     buffering, so only the flush writes.  Then: reads, lift, flush again, snapshot."""
     rng = random.Random(seed)
@@ -571,6 +581,14 @@ def gen_fault(seed, idbase=0, shape="val", threshold=0, syncop="flush", name="fa
     n = layout_buckets(nb)
     s.op("open_db", db=0, dir="d")
     s.op("map", h=1, db=0, name="m", kt="bytes", params=params)
+    if second:
+        # a small second map (visited before or after "m" by the database-level sync, depending on its
+        # key type and name) that CAN be written: its success must not hide the failure of "m"
+        s.op("map", h=2, db=0, name=second[0], kt=second[1], params=dict(full, buckets=["BucketsSize", 8]))
+        k2 = _mk_keys(s, rng, second[1], 3)
+        v2 = s.newval(5)
+        for k in k2:
+            s.op("put", h=2, k=k, v=v2)
     keys = []
     for _ in range(n1 + n2):
         k = s.key(rng.choice(klens))
@@ -587,7 +605,10 @@ def gen_fault(seed, idbase=0, shape="val", threshold=0, syncop="flush", name="fa
         if s.ops[-1]["op"] == "put":
             s.ops[-1]["v"] = rng.choice(vids)
     s.op("rlimit_fsize", bytes=threshold)
-    s.op(syncop, h=1)
+    if syncop.startswith("db_"):
+        s.op(syncop, db=0)
+    else:
+        s.op(syncop, h=1)
     s.op("rlimit_fsize")                       # lift
     s.op("copy_dir", **{"from": "d", "to": "snapA"})
     s.op("child_dump", dir="snapA", name="m", kt="bytes", **{"as": "C16.reported"})
@@ -824,10 +845,14 @@ def gen_twice(seed, idbase=0, nops=150, nb=("BucketsSize", 32), kt="bytes", bufs
     upd = []
     for i in range(nops):
         k = rng.choice(keys)
-        if rng.random() < 0.7:
+        r = rng.random()
+        if r < 0.62:
             upd.append(("put", k, rng.choice(vids)))
-        else:
+        elif r < 0.88:
             upd.append(("del", k, None))
+        else:
+            ks = list(dict.fromkeys(rng.choice(keys) for _ in range(rng.randrange(2, 9))))
+            upd.append((rng.choice(["bulk_put", "put_from_iter", "bulk_del"]), ks, [rng.choice(vids) for _ in ks]))
     for rep, d in (("A", "dA"), ("B", "dB")):
         s.op("open_db", db=0, dir=d)
         s.op("map", h=1, db=0, name="m", kt=kt, params=params)
@@ -836,8 +861,12 @@ def gen_twice(seed, idbase=0, nops=150, nb=("BucketsSize", 32), kt="bytes", bufs
         for (o, k, v) in upd:
             if o == "put":
                 s.op("put", h=1, k=k, v=v)
-            else:
+            elif o == "del":
                 s.op("del", h=1, k=k)
+            elif o == "bulk_del":
+                s.op("bulk_del", h=1, ks=k)
+            else:
+                s.op(o, h=1, ks=k, vs=v)
             if rep == "B" and rng.random() < 0.5:
                 r = rng.random()
                 if r < 0.3:
@@ -1266,3 +1295,42 @@ def bfs_spec(kind, idbase=0):
             tables["keys"] += o["keys"]
             tables["vals"] += o["vals"]
     return {"kt": "bytes", "n": n, "params": {"buckets": ["BucketsSize", n]}, "tables": tables, "prefix": prefix, "alphabet": alphabet, "kind": kind}
+
+
+def gen_inplace(seed, idbase=0, slots=None, name="inplace"):
+    """C09: the decision "does the new record still fit the old slot": for each slot size, a value that
+    lives in that slot is first shrunk (short length field), then overwritten with lengths around the
+    largest one that fits, and around slot - header for every header width; neighbours on both sides;
+    decoded after each step."""
+    rng = random.Random(seed)
+    s = Script(idbase, design=True, name=name)
+    s.op("open_db", db=0, dir="d")
+    s.op("map", h=1, db=0, name="m", kt="bytes", params={"buckets": ["BucketsSize", 2]})
+    dec = dict(dir="d", name="m", flush_h=1, native=True)
+    slots = slots or [16, 24, 32, 48, 64, 128, 256, 384, 1024, 1152, 16512]
+    n = 0
+    for S in slots:
+        # largest value length whose fresh slot is <= S
+        fit = max(l for l in range(0, S) if layout.val_slot(l) <= S)
+        cands = sorted({fit - 2, fit - 1, fit, fit + 1, S - 2, S - 3, S - 4, S - 5, S - 6} & set(range(0, S + 2)))
+        for b in cands:
+            n += 1
+            ka, kb, kc = s.key(8), s.key(9), s.key(10)
+            first = max(l for l in range(0, fit + 1) if layout.val_slot(l) == S) if any(layout.val_slot(l) == S for l in range(0, fit + 1)) else fit
+            s.op("put", h=1, k=ka, v=s.newval(33))
+            s.op("put", h=1, k=kb, v=s.newval(first))            # lives in a slot of S bytes
+            s.op("put", h=1, k=kc, v=s.newval(44))               # the neighbour behind it
+            s.op("put", h=1, k=kb, v=s.newval(rng.choice([0, 1, 5, 100][: 3 if S < 128 else 4])))   # shrink in place
+            s.op("decode", **dec)
+            s.op("put", h=1, k=kb, v=s.newval(b))                # grow to around the boundary
+            s.op("decode", **dec)
+            s.op("get", h=1, k=kc)
+            s.op("get", h=1, k=ka)
+            s.op("get", h=1, k=kb)
+            s.op("put", h=1, k=kc, v=s.newval(45))               # touch the neighbour
+            s.op("decode", **dec)
+            for k in (ka, kb, kc):
+                s.op("del", h=1, k=k)
+    s.op("new_process")
+    s.op("decode", dir="d", name="m", native=True)
+    return s
